@@ -45,6 +45,7 @@ fn run(c: &HCase) -> CaseOut {
         it.reopen_cfgs = c.reopen_cfgs.clone();
     }
     it.audit_pages = mode == "c11" || mode == "c13";
+    it.vacuum_aborts_sessions = mode == "c13";
     let mut fail: Option<Failure> = None;
     let mut write_after_reopen = false;
     let mut noncommit_before_reopen = false;
@@ -134,10 +135,11 @@ fn classify(mode: &str, it: &Interp, f: Failure, out: &mut CaseOut) -> Option<Fa
         "c09" => {
             if c.starts_with("reopen_") {
                 Some(f)
-            } else if has(it, "admin.reopen") && c != "panic" {
+            } else if has(it, "admin.reopen") && c != "panic" && !c.starts_with("vacuum_") {
                 Some(Failure { clause: format!("after_reopen.{c}"), ..f })
             } else if has(it, "admin.reopen") {
-                Some(Failure { clause: "after_reopen.panic".into(), ..f })
+                // a panic, or a divergence introduced by VACUUM, after a reopen: not what close/reopen is about
+                abandon(out, "after_reopen")
             } else {
                 abandon(out, "before_reopen")
             }
